@@ -3,6 +3,7 @@
 import os, sys
 sys.path.insert(0, os.path.dirname(os.path.abspath(__file__)))
 sys.path.insert(0, os.path.dirname(os.path.dirname(os.path.abspath(__file__))))
+import common
 import streamlib
 from streams import mh
 
@@ -18,5 +19,50 @@ RULE = ("mh-stream histories with ~30% md5 queries (direct and via a signature) 
         "recomputes md5(str(ksize) + concat(str(h))) from the hashes the implementation itself reports after each op; "
         "non-trivial = >= 3 state-changing ops; distinct = distinct op lists")
 
+def btree_md5(chk, pkg):
+    """The tree-backed sketch (KmerMinHashBTree: what `SourmashSignature.from_params`, `sourmash sketch` / `compute`
+    and `signature_add_sequence` build and feed) has an md5 cache of its own, and `From<&KmerMinHashBTree> for
+    KmerMinHash` (behind `signature_first_mh`, i.e. Python's `sig.minhash` / `sig.md5sum()`) decides whether a cached
+    digest is handed over.  The C14 twin stream runs every history through the real array-backed AND tree-backed
+    sketch (rust-harness) and prints the md5 of both after every op (so the caches are always filled before the next
+    mutation): a pair of answers with EQUAL content and DIFFERENT md5 is a stale digest (seeded C11d)."""
+    from streams import twin
+    n = 150 if chk.tier == "quick" else 3000
+    cases = [twin.gen_case(chk.rng, "excl") for _ in range(n)]
+    res = streamlib.run_cases(twin, cases, pkg, procs=16)
+    k = 0
+    for case, impl, model, crash in res:
+        chk.cov["evaluations"] += 1
+        if crash is not None:
+            chk.add_violation("crash", "C11:btree:adapter-crash", "rust-harness died on a twin history", {"case": case})
+            continue
+        chk.cov["traces_validated_against_impl"] += 1
+        k += 1
+        for idx, (op, obs) in enumerate(zip(case, impl)):
+            halves = obs.split(" | ")
+            if len(halves) != 2:
+                continue
+            a, b = twin.parse_half(halves[0]), twin.parse_half(halves[1])
+            if not a or not b or "md5" not in a or "md5" not in b:
+                continue
+            same_content = all(a.get(f) == b.get(f) for f in ("num", "mh", "tr", "mins", "ab"))
+            digest = common.md5_of_pre(int(case_ksize(case, op, a)), [int(x) for x in a["mins"].split(",")] if a.get("mins") else []) \
+                if case_ksize(case, op, a) is not None else None
+            if same_content and a["md5"] != b["md5"]:
+                which = "tree-backed" if digest is None or b["md5"] != digest else "array-backed"
+                chk.add_violation("oracle", "C11:stale-md5:btree",
+                                  f"after `{op}` both sketches hold the same content but report md5 {a['md5']} (array-backed) and "
+                                  f"{b['md5']} (tree-backed): the {which} one answers from a stale cache "
+                                  f"(history: {[c.split()[0] for c in case[max(0, idx - 6):idx]]})",
+                                  {"case": case[:idx + 1], "impl": impl[:idx + 1], "op_index": idx})
+                break
+    chk.cov["btree_twin_cases"] = k
+
+
+def case_ksize(case, op, half):
+    """k-mer size of the sketch an observation is about, if the observation carries it"""
+    return half.get("k") or half.get("ksize")
+
+
 if __name__ == "__main__":
-    streamlib.run_property("C11", mh, ["md5", "md5", "setops"], mh.oracle_md5, 1500, 60000, TB, AS, RULE, nontrivial=mh.nontrivial)
+    streamlib.run_property("C11", mh, ["md5", "md5", "setops"], mh.oracle_md5, 1500, 60000, TB, AS, RULE, nontrivial=mh.nontrivial, extra=btree_md5)
